@@ -73,6 +73,15 @@ def make_env(key, table, fields, monitor=None):
     env.fn = extract.get_function(modname, qual)
     env.module = extract.real_module(modname)
     env.real_fn = extract.real_object(modname, qual)
+    if isinstance(env.real_fn, property):
+        env.real_fn = env.real_fn.fget
+    import inspect as _inspect
+    if "." in qual:
+        static = _inspect.getattr_static(extract.real_object(modname, qual.rsplit(".", 1)[0]), qual.rsplit(".", 1)[1], None)
+        if isinstance(static, property):
+            env.real_fn = static.fget
+        elif isinstance(static, (staticmethod, classmethod)):
+            env.real_fn = static.__func__
     cls = None
     if "." in qual:
         cls = extract.real_object(modname, qual.rsplit(".", 1)[0])
